@@ -23,6 +23,9 @@ type Task struct {
 
 type Round struct {
 	Subs [][]Task `json:"subs"` // Subs[0] is submitted by the waiter itself when MainSubmits
+	// Late submitters keep submitting while the waiter is already inside Wait:
+	// Wait must still cover every task whose Submit had returned before Wait was called.
+	Late [][]Task `json:"late,omitempty"`
 }
 
 type Scn struct {
@@ -91,6 +94,17 @@ func gen(prop, tier string, r *rand.Rand, idx int) any {
 			}
 			rd.Subs = append(rd.Subs, ts)
 		}
+		if sc.Mode != "barrier" && r.IntN(3) == 0 {
+			nl := 1 + r.IntN(2)
+			for s := 0; s < nl; s++ {
+				var ts []Task
+				for k := r.IntN(6); k >= 0; k-- {
+					ts = append(ts, Task{ID: id})
+					id++
+				}
+				rd.Late = append(rd.Late, ts)
+			}
+		}
 		sc.Rounds = append(sc.Rounds, rd)
 	}
 	sc.MainSubmits = r.IntN(2) == 0
@@ -137,6 +151,16 @@ func shrinkCands(x any) []any {
 		out = append(out, c)
 	}
 	for i, rd := range sc.Rounds {
+		for s := range rd.Late {
+			c := clone(sc)
+			c.Rounds[i].Late = append(c.Rounds[i].Late[:s], c.Rounds[i].Late[s+1:]...)
+			out = append(out, c)
+			if n := len(rd.Late[s]); n > 1 {
+				c = clone(sc)
+				c.Rounds[i].Late[s] = c.Rounds[i].Late[s][:n-1]
+				out = append(out, c)
+			}
+		}
 		for s := range rd.Subs {
 			if len(rd.Subs) > 1 {
 				c := clone(sc)
@@ -206,6 +230,7 @@ func run(t *testing.T, prop string, x any, cfg simrt.Config) *eng.Outcome {
 		}
 	}
 	roundOf := map[int]int{}
+	late := map[int]bool{}
 	total := 0
 	need := make([]int, len(sc.Rounds))
 	for ri, rd := range sc.Rounds {
@@ -215,6 +240,13 @@ func run(t *testing.T, prop string, x any, cfg simrt.Config) *eng.Outcome {
 				roundOf[tk.ID] = ri
 				n++
 			}
+		}
+		for _, s := range rd.Late {
+			for _, tk := range s {
+				roundOf[tk.ID] = ri
+				late[tk.ID] = true
+			}
+			total += len(s)
 		}
 		total += n
 		need[ri] = min(eff, n)
@@ -270,18 +302,32 @@ func run(t *testing.T, prop string, x any, cfg simrt.Config) *eng.Outcome {
 				submitAll(0, rd.Subs[0])
 			}
 			join.Wait()
+			var lateJoin simsync.WaitGroup
+			for si, ts := range rd.Late {
+				lateJoin.Add(1)
+				simrt.Go("late-submitter", func() {
+					defer lateJoin.Done()
+					submitAll(100+si, ts)
+				})
+			}
+			simrt.Emit(simrt.Event{Kind: "wait_called", N: ri})
 			pool.Wait()
 			simrt.Emit(simrt.Event{Kind: "wait_returned", N: ri})
+			if len(rd.Late) > 0 {
+				lateJoin.Wait()
+				pool.Wait()
+				simrt.Emit(simrt.Event{Kind: "wait_quiesced", N: ri})
+			}
 		}
 		pool.Close()
 		simrt.Emit(simrt.Event{Kind: "closed"})
 	})
 	o := &eng.Outcome{Res: res, Faults: map[string]int{}, Probes: map[string]int{}}
-	o.V = oracle(prop, sc, eff, total, roundOf, res, o)
+	o.V = oracle(prop, sc, eff, total, roundOf, late, res, o)
 	return o
 }
 
-func oracle(prop string, sc *Scn, eff, total int, roundOf map[int]int, res *simrt.Result, o *eng.Outcome) *eng.Violation {
+func oracle(prop string, sc *Scn, eff, total int, roundOf map[int]int, late map[int]bool, res *simrt.Result, o *eng.Outcome) *eng.Violation {
 	viol := func(clause, format string, a ...any) *eng.Violation {
 		return &eng.Violation{Prop: prop, Class: prop + "." + clause, Msg: fmt.Sprintf(format, a...)}
 	}
@@ -289,6 +335,8 @@ func oracle(prop string, sc *Scn, eff, total int, roundOf map[int]int, res *simr
 	ends := map[int]int{}
 	endSeq := map[int]int{}
 	inflight, maxIn := 0, 0
+	submitted := map[int]bool{}
+	covered := map[int]bool{}
 	openSubmits := 0
 	closed := false
 	var over *eng.Violation
@@ -315,13 +363,21 @@ func oracle(prop string, sc *Scn, eff, total int, roundOf map[int]int, res *simr
 			openSubmits++
 		case "submit_end":
 			openSubmits--
-		case "wait_returned":
+			submitted[e.I] = true
+		case "wait_called":
+			covered = map[int]bool{}
+			for id := range submitted {
+				covered[id] = true
+			}
+		case "wait_returned", "wait_quiesced":
 			for id, r := range roundOf {
-				if r <= e.N && barrier == nil {
-					if ends[id] == 0 {
-						barrier = viol("barrier", "Wait of round %d returned at seq %d before task %d (round %d) finished", e.N, e.Seq, id, r)
-					}
+				if r > e.N || barrier != nil || ends[id] > 0 {
+					continue
 				}
+				if e.Kind == "wait_returned" && !covered[id] {
+					continue // submitted concurrently with this Wait: may or may not be covered
+				}
+				barrier = viol("barrier", "Wait of round %d returned at seq %d before task %d (round %d), whose Submit had returned before Wait was called, finished", e.N, e.Seq, id, r)
 			}
 		case "closed":
 			closed = true
